@@ -2,6 +2,7 @@ pub mod c01;
 pub mod c05race;
 pub mod c09;
 pub mod c10;
+pub mod c18;
 pub mod c19;
 pub mod common;
 pub mod hist;
@@ -18,7 +19,9 @@ pub fn by_id(id: &str) -> Option<Box<dyn Check>> {
         "C05" => Some(Box::new(histchecks::C05)),
         "C09" => Some(Box::new(c09::C09)),
         "C19" => Some(Box::new(c19::C19)),
+        "C18" => Some(Box::new(c18::C18)),
         "C10" => Some(Box::new(c10::C10)),
+        "C11" => Some(Box::new(histchecks::HistCheck { prop: "C11" })),
         "C08" => Some(Box::new(histchecks::HistCheck { prop: "C08" })),
         _ => None,
     }
